@@ -5,6 +5,7 @@
 package main
 
 import (
+	"encoding/base64"
 	"sync/atomic"
 	"bytes"
 	"crypto/sha512"
@@ -27,6 +28,9 @@ type vConcWorld struct {
 	sched *vSched
 	botp  string
 	code  string
+	tok   *vU2FToken
+	detail []string
+	chal  string // the pending sign-in challenge (base64url), stored by the begin request before the schedule starts
 }
 
 func newConcWorld(kind string) *vConcWorld {
@@ -40,7 +44,8 @@ func newConcWorld(kind string) *vConcWorld {
 	if kind == "tokens" {
 		enc, err := w.st.encryptWithPublicKeys([]byte(vTOTPSecret))
 		vMust(err)
-		p.U2fAuthData[1] = &u2fAuthData{Enabled: true, Name: "tok", Registration: newU2FToken("c16").registration(), CreatedAt: time.Unix(1700000000, 0)}
+		g.tok = newU2FToken("c16")
+		p.U2fAuthData[1] = &u2fAuthData{Enabled: true, Name: "tok", Registration: g.tok.registration(), CreatedAt: time.Unix(1700000000, 0)}
 		p.TOTPAuthData[1] = &totpAuthData{Enabled: true, Name: "tok", EncryptedSecret: enc, CreatedAt: time.Unix(1700000000, 0)}
 	}
 	vMust(w.st.SaveUserProfile("alice", p))
@@ -49,6 +54,23 @@ func newConcWorld(kind string) *vConcWorld {
 		w.armBootstrapOTP("alice", g.botp, time.Hour)
 	}
 	g.code, _ = totp.GenerateCode(vTOTPSecret, time.Now())
+	if kind == "tokens" {
+		// a sign-in challenge is pending (the WebAuthn begin stores one that serves both APIs)
+		r := w.Do(vReq{Method: "GET", Path: webAuthnAuthBeginPath, Cookies: map[string]string{authCookieName: w.mintCookie("alice", AuthTypePassword, 0)}})
+		var opt struct {
+			PublicKey struct {
+				Challenge string `json:"challenge"`
+			} `json:"publicKey"`
+		}
+		if r.Status != 200 || json.Unmarshal(r.Body, &opt) != nil || opt.PublicKey.Challenge == "" {
+			panic(fmt.Sprintf("verif harness: sign-in begin failed: %d %s", r.Status, r.Body))
+		}
+		raw, err := base64.RawURLEncoding.DecodeString(strings.TrimRight(opt.PublicKey.Challenge, "="))
+		if err != nil {
+			raw, _ = base64.StdEncoding.DecodeString(opt.PublicKey.Challenge)
+		}
+		g.chal = base64.RawURLEncoding.EncodeToString(raw)
+	}
 	g.prim, _ = w.regate()
 	g.sched = &vSched{held: map[int]chan struct{}{}, events: make(chan vSchedEv, 16)}
 	g.prim.mu.Lock()
@@ -61,7 +83,7 @@ func (g *vConcWorld) request(op string) vReq {
 	w := g.w
 	ck := map[string]string{authCookieName: w.mintCookie("alice", AuthTypePassword, 0)}
 	switch {
-	case strings.HasPrefix(op, "u2f_") && op != "u2f_regbegin", strings.HasPrefix(op, "totp_") && op != "totp_gen" && op != "totp_auth":
+	case strings.HasPrefix(op, "u2f_") && op != "u2f_regbegin" && op != "u2f_auth", strings.HasPrefix(op, "totp_") && op != "totp_gen" && op != "totp_auth":
 		path := u2fTokenManagementPath
 		if strings.HasPrefix(op, "totp_") {
 			path = totpTokenManagementPath
@@ -76,6 +98,11 @@ func (g *vConcWorld) request(op string) vReq {
 		return vReq{Method: "GET", Path: webAutnRegististerRequestPath + "alice", Cookies: ck}
 	case op == "totp_auth":
 		return vReq{Method: "POST", Path: totpAuthPath, Cookies: ck, Form: url.Values{"OTP": {g.code}}}
+	case op == "u2f_auth":
+		body, _ := json.Marshal(g.tok.signResponse(g.chal))
+		return vReq{Method: "POST", Path: u2fSignResponsePath, Cookies: ck, RawBody: body, BodyType: "application/json"}
+	case op == "webauthn_auth":
+		return vReq{Method: "POST", Path: webAuthnAuthFinishPath, Cookies: ck, RawBody: g.tok.webauthnAssertion(g.chal), BodyType: "application/json"}
 	case op == "botp_use":
 		return vReq{Method: "POST", Path: bootstrapOtpAuthPath, Cookies: ck, Form: url.Values{"OTP": {g.botp}}}
 	case op == "botp_gen":
@@ -117,14 +144,18 @@ func (g *vConcWorld) final() map[string]interface{} {
 	if x, ok := p.TOTPAuthData[1]; ok {
 		t = tok(true, x.Enabled, x.Name)
 	}
+	g.w.st.Mutex.Lock()
+	_, chal := g.w.st.localAuthData["alice"]
+	g.w.st.Mutex.Unlock()
 	return map[string]interface{}{"u2f": u, "totp": t, "pending": p.PendingTOTPSecret != nil, "regchal": p.RegistrationChallenge != nil,
 		"wchal": p.WebauthnSessionData != nil, "totpUsed": p.LastSuccessfullTOTPCounter > 0,
-		"botp": g.botpValue(p)}
+		"botp": g.botpValue(p), "chal": chal}
 }
 
 // runSchedule executes ops under the given prefix of choices (then lowest-id-first); returns results, the choices
 // actually made and, for every decision, which requests were enabled (for the exploration of alternatives).
 func (g *vConcWorld) runSchedule(ops []string, prefix []int) (results []string, made []int, enabledAt [][]int, panicked bool) {
+	g.detail = nil
 	n := len(ops)
 	s := g.sched
 	s.mu.Lock()
@@ -159,6 +190,7 @@ func (g *vConcWorld) runSchedule(ops []string, prefix []int) (results []string, 
 			id := choice
 			q := g.request(ops[id])
 			go func() {
+				s.register(id)
 				resp[id] = g.w.Do(q)
 				s.events <- vSchedEv{id, "done", ""}
 			}()
@@ -174,6 +206,19 @@ func (g *vConcWorld) runSchedule(ops []string, prefix []int) (results []string, 
 			panic(fmt.Sprintf("verif harness: schedule stuck ops=%v made=%v", ops, made))
 		}
 	}
+	// work the handlers left to goroutines of their own (it passes the gate unscheduled) has to land before the final
+	// state is read: wait until the store has been quiet for a while
+	for quiet, last := 0, -1; quiet < 3; {
+		g.prim.mu.Lock()
+		c := g.prim.count
+		g.prim.mu.Unlock()
+		if c == last {
+			quiet++
+		} else {
+			quiet, last = 0, c
+		}
+		time.Sleep(8 * time.Millisecond)
+	}
 	s.mu.Lock()
 	s.active = false
 	s.mu.Unlock()
@@ -186,6 +231,7 @@ func (g *vConcWorld) runSchedule(ops []string, prefix []int) (results []string, 
 			panicked = true
 		}
 		results = append(results, r)
+		g.detail = append(g.detail, fmt.Sprintf("%d %.60q", resp[i].Status, strings.ReplaceAll(string(resp[i].Body), "null", "nil")))
 	}
 	return
 }
@@ -215,7 +261,7 @@ func runC16(t *testing.T, cases []map[string]interface{}, ev *vEvents) {
 			if !seen[key] {
 				seen[key] = true
 				outs[ci].evs = append(outs[ci].evs, map[string]interface{}{"ev": "Run", "case": ci, "world": world, "ops": ops,
-					"schedule": made, "results": results, "final": g.final(), "race": false, "panic": panicked})
+					"schedule": made, "results": results, "final": g.final(), "race": false, "panic": panicked, "detail": g.detail})
 				for i := len(prefix); i < len(made); i++ {
 					for _, alt := range enabledAt[i] {
 						if alt != made[i] {
